@@ -1,8 +1,8 @@
 CONSTANTS
   Inits = {"fresh", "funded", "pendsend", "pendrecv", "done"}
-  MaxHist = 3
+  MaxHist = 2
   MaxGen = 3
-  HistOps <- HistOpsFull
+  HistOps <- HistOpsShort
   UseNode = TRUE
   UseClose = TRUE
 SPECIFICATION Spec
